@@ -84,7 +84,13 @@ fn run_one(m: &str, st: u16, cls: &[&str], tes: &[&str], others: &(Vec<(&str, &s
     let reads = Reads::Sizes(vec![2, 1 << 16, 1 << 16, 1 << 16, 7]);
     let case = RespCase { method: m.into(), max_headers: 100, segs: vec![Seg::Data(wire.clone())], reads };
     let out = run_resp(&case);
-    let expect = rfc_framing(m, st, cls, tes);
+    let mut expect = rfc_framing(m, st, cls, tes);
+    // a field value with a control byte makes the head itself malformed (RFC 9110 §5.5: reject, or read the
+    // byte as SP): where the framing rule does not already demand a refusal, nothing is demanded
+    let ctl_head = cls.iter().any(|v| v.bytes().any(|b| (b < 0x20 && b != b'\t') || b == 0x7f));
+    if ctl_head && !matches!(expect, Expect::Refuse) {
+        expect = Expect::Unconstrained;
+    }
     let tag = format!("{:?}", expect).split('(').next().unwrap().to_lowercase();
     let o: Result<(), (String, String)> = (|| {
         let exp: Decoded = match &expect {
@@ -95,8 +101,11 @@ fn run_one(m: &str, st: u16, cls: &[&str], tes: &[&str], others: &(Vec<(&str, &s
                 return Ok(());
             }
             Expect::Refuse => {
+                let ctl = cls.iter().any(|v| v.bytes().any(|b| (b < 0x20 && b != b'\t') || b == 0x7f));
                 return match &out.head {
                     HeadOut::Err(k) if k == "contentLength" => Ok(()),
+                    // a control byte makes the field line itself unusable: the head parser may say so first
+                    HeadOut::Err(k) if ctl && (k == "headerValue" || k == "header") => Ok(()),
                     h => Err(("bad-length-accepted".to_string(), format!("Content-Length list {:?} must be refused with InvalidResponse(ContentLength), got {:?}", cls, h))),
                 };
             }
@@ -138,7 +147,10 @@ fn run_one(m: &str, st: u16, cls: &[&str], tes: &[&str], others: &(Vec<(&str, &s
 pub fn generate(_seed: u64, tier: &str, sink: &mut Sink) {
     let methods = ["GET", "HEAD", "POST"];
     let statuses = [100u16, 101, 199, 200, 204, 205, 304, 404];
-    let cl_vals = ["0", "3", "03", "+3", "-3", " 3", "3 ", "", "3x", "18446744073709551615", "18446744073709551616", "3,3", "3\t"];
+    // the last three carry a control byte (DEL, SOH, VT): no field value at all, let alone a number — whether
+    // the head parser or the framing decision refuses them, the response must not be framed as if the field
+    // were absent (seed C03-seed8)
+    let cl_vals = ["0", "3", "03", "+3", "-3", " 3", "3 ", "", "3x", "18446744073709551615", "18446744073709551616", "3,3", "3\t", "3\x7f", "\x013", "3\x0b4"];
     let mut cl_lists: Vec<Vec<&str>> = vec![vec![]];
     for a in cl_vals.iter() {
         cl_lists.push(vec![a]);
